@@ -18,6 +18,16 @@ SHARDS = 6
 UNIT_KEYS = ('length', 'time', 'quantity', 'energy', 'act_energy', 'pressure', 'mass')
 DEFAULT_UNITS = {'length': 'cm', 'time': 's', 'quantity': 'molec', 'energy': 'cal',
                  'act_energy': 'cal/mol', 'pressure': 'bar', 'mass': 'kg'}
+# the unit table (pmutt.constants.convert_unit) per Units attribute.  act_energy: only the per-mole
+# units work with constants.R; lengths 'A' and 'km' have no cubed unit in the table, so they are used
+# for models without a bulk phase (its density needs <length>3)
+UNIT_VALUES = {'length': ['cm', 'm', 'inch', 'ft', 'A', 'km'],
+               'time': ['s', 'min', 'hr', 'ms', 'ns', 'ps', 'day', 'yr'],
+               'quantity': ['mol', 'molec', 'molecule', 'particle'],
+               'energy': ['J', 'kJ', 'cal', 'kcal', 'eV', 'Eh', 'Ha', 'L atm'],
+               'act_energy': ['kcal/mol', 'cal/mol', 'J/mol', 'kJ/mol'],
+               'pressure': ['Pa', 'kPa', 'MPa', 'atm', 'bar', 'mmHg', 'torr', 'psi'],
+               'mass': ['kg', 'g', 'amu', 'lbs']}
 ATOMS = ['H', 'C', 'N', 'O']
 METALS = ['Ru', 'Pt', 'Ni', 'Cu']
 YAML11_WORDS = {'ON', 'NO', 'OFF', 'YES', 'Y', 'TRUE', 'FALSE', 'NULL'}
@@ -58,34 +68,64 @@ def abstract_model(case):
     rnd = random.Random(case['seed'])
     big = case.get('size', 'small') in ('big', 'huge')
     M = {'T': rnd.choice([300., 500., 650.5, 900.]), 'P': case.get('P', 1.0),
-         'motz': rnd.random() < 0.5}
-    # ---- units
+         'motz': rnd.random() < 0.5, 'T_pass': True, 'motz_pass': True}
+    if case.get('T') == 'default':                  # T / use_motz_wise left at the writers' defaults
+        M['T'], M['T_pass'] = 300., False
+    elif case.get('T') == 'int':
+        M['T'] = 500
+    if case.get('motz') == 'default':
+        M['motz'], M['motz_pass'] = False, False
+    # ---- units: every value the unit table supports for each of the seven keys (rotating with `uk`),
+    # given as omkm Units, cantera Units, a full dict, a partial dict (other keys at their defaults)
+    # or not at all
     uform = case.get('units_form') or rnd.choice(['obj', 'obj', 'dict', 'absent'])
     if uform == 'absent':
         units = dict(DEFAULT_UNITS)
+    elif 'uk' in case:
+        k = case['uk']
+        units = {key: UNIT_VALUES[key][(k * mult + off) % len(UNIT_VALUES[key])]
+                 for key, mult, off in (('length', 1, 0), ('time', 3, 0), ('quantity', 1, 0), ('energy', 5, 0),
+                                        ('act_energy', 3, 0), ('pressure', 7, 0), ('mass', 1, 1))}
+        rnd.random()
     else:
         units = {'length': rnd.choice(['cm', 'm']), 'time': 's',
                  'quantity': rnd.choice(['mol', 'molec']),
                  'energy': rnd.choice(['kcal', 'cal', 'J', 'kJ']),
                  'act_energy': rnd.choice(['kcal/mol', 'cal/mol', 'J/mol', 'kJ/mol']),
                  'pressure': rnd.choice(['atm', 'bar', 'Pa']), 'mass': rnd.choice(['g', 'kg'])}
+    M['units_given'] = sorted(units)
+    if uform == 'pdict':
+        keep = [key for i, key in enumerate(UNIT_KEYS) if (case.get('uk', 0) >> i) & 1] or ['length']
+        units = {key: (units[key] if key in keep else DEFAULT_UNITS[key]) for key in UNIT_KEYS}
+        M['units_given'] = sorted(keep)
     M['units'], M['units_form'] = units, uform
     # ---- phases
     n_iface = case.get('n_iface', rnd.choice([1, 1, 2]))
     has_bulk = case.get('bulk', rnd.random() < 0.6)
-    phases = [{'name': 'gas', 'kind': 'gas'}]
+    if units['length'] in ('A', 'km') or n_iface == 3:      # no <length>3 in the unit table; <= 4 phases
+        has_bulk = False
+    PN = ({'gas': 'gas-1', 'bulk': 'bulk_Ru', 'T': 'Pt-111', 'S': 'step_2', 'F': 'facet(211)'}
+          if case.get('phase_names') == 'odd' else
+          {'gas': 'gas', 'bulk': 'bulk', 'T': 'terrace', 'S': 'step', 'F': 'facet'})
+    M['pn'] = PN
+    note = (lambda n: 'phase %s of the test model, written by pMuTT' % n) if case.get('notes') else (lambda n: None)
+    phases = [{'name': PN['gas'], 'kind': 'gas', 'note': note('gas')}]
     if has_bulk:
-        phases.append({'name': 'bulk', 'kind': 'solid', 'density': rnd.choice([12.4, 8.9, 21.45])})
-    tags = ['T', 'S'][:n_iface]
+        phases.append({'name': PN['bulk'], 'kind': 'solid', 'density': rnd.choice([12.4, 8.9, 21.45]),
+                       'note': note('bulk')})
+    tags = ['T', 'S', 'F'][:n_iface]
     metal = rnd.choice(METALS)
     for t in tags:
-        phases.append({'name': {'T': 'terrace', 'S': 'step'}[t], 'kind': 'iface', 'tag': t,
+        phases.append({'name': PN[t], 'kind': 'iface', 'tag': t, 'note': note(t),
                        'site_density': rnd.choice([2.1671e-9, 4.4385e-10, 1.5e-9, 3.0e-9]),
-                       'parents': ['gas'] + (['bulk'] if has_bulk else [])})
+                       'parents': [PN['gas']] + ([PN['bulk']] if has_bulk else [])})
     M['phases'] = phases
+    M['parents_as'] = case.get('parents', 'names')
     # ---- species: fragments and their combinations
     rich = case.get('names') == 'rich'
-    nfrag = 5 if case.get('size') == 'huge' else (rnd.randint(4, 5) if rich else rnd.randint(2, 5 if big else 3))
+    if case.get('tiny'):
+        big = False
+    nfrag = 2 if case.get('tiny') else 5 if case.get('size') == 'huge' else (rnd.randint(4, 5) if rich else rnd.randint(2, 5 if big else 3))
     frags = []
     while len(frags) < nfrag:
         comp = {}
@@ -151,15 +191,18 @@ def abstract_model(case):
         sp.update(_thermo(rnd, fam))
         species.append(sp)
         return sp
+    if case.get('tiny'):
+        combos = []
     mols = frags + [c[0] for c in combos]
     gas_names = []
     for comp in mols:
-        if rnd.random() < 0.7 or not gas_names:
-            gas_names.append(mk(mname(comp), comp, 'gas', None)['name'])
+        if rnd.random() < 0.7 or not gas_names or case.get('tiny'):
+            gas_names.append(mk(mname(comp), comp, PN['gas'], None)['name'])
     if has_bulk:
-        mk('%s(B)' % metal.upper(), {metal: 1}, 'bulk', None)
+        if not case.get('empty_bulk'):
+            mk('%s(B)' % metal.upper(), {metal: 1}, PN['bulk'], None)
     for t in tags:
-        ph = {'T': 'terrace', 'S': 'step'}[t]
+        ph = PN[t]
         mk('%s(%s)' % (metal.upper(), t), {metal: 1}, ph, rnd.choice([1, 1, 1.0]))
         for comp in mols:
             mk('%s(%s)' % (mname(comp), t), add(comp, {metal: 1}), ph, rnd.choice([1, 1, 2, 1.0]))
@@ -168,9 +211,9 @@ def abstract_model(case):
     M['edits'] = []
     if case.get('rewrite'):
         spect = {}
-        for ph, nm, el in [('gas', 'AR', 'Ar')] + [({'T': 'terrace', 'S': 'step'}[t], 'K(%s)' % t, 'K') for t in tags]:
+        for ph, nm, el in [(PN['gas'], 'AR', 'Ar')] + [(PN[t], 'K(%s)' % t, 'K') for t in tags]:
             pos = rnd.choice(['first', 'last'])
-            sp = mk(nm, {el: 1}, ph, None if ph == 'gas' else 1)
+            sp = mk(nm, {el: 1}, ph, None if ph == PN['gas'] else 1)
             if pos == 'first':
                 species.insert(0, species.pop())
             spect[ph] = nm
@@ -184,7 +227,7 @@ def abstract_model(case):
     pattern = case.get('beps')          # None | 'unnamed' | 'mixed' | 'auto_ns' | 'named'
     nbep = rnd.randint(2, 3) if pattern else rnd.randint(0, 3 if big else 2)
     slopes = rnd.sample([0.29, 0.52, 0.71, 1.0], 3)         # distinct relationships are distinct objects
-    intercepts = rnd.sample([19.78, 23.23, 23.69, 5.0], 3)
+    intercepts = rnd.sample([19.78, 23.23, 23.69, 5.0, 0.0], 3)
     for k in range(nbep):
         if case.get('bep_names') == 'none' or pattern == 'unnamed':
             nm = None
@@ -213,12 +256,14 @@ def abstract_model(case):
             return None
         if case.get('ids') == 'collide' and r < 0.5:
             return 'r_%04d' % rnd.randint(0, 3)
+        if case.get('ids') == 'int' and r < 0.6:
+            return '%04d' % (len(reactions) + 3)           # given to the constructor as an int
         if r < 0.3:
             return 'u_%04d' % (len(reactions) + 1 + 10 * rnd.randint(0, 2))
         return None
     attempts = 0
     used_ids = set()
-    if not tags:
+    if not tags or case.get('empty_lists'):
         want_rx = 0
     while len(reactions) < want_rx and attempts < 400:
         attempts += 1
@@ -263,7 +308,7 @@ def abstract_model(case):
                 rx['direction'] = direction
             elif r < 0.7:
                 tsn = 'TS%d(%s)' % (len(ts_species), t)
-                ts = {'name': tsn, 'family': 'nasa', 'phase': {'T': 'terrace', 'S': 'step'}[t],
+                ts = {'name': tsn, 'family': 'nasa', 'phase': PN[t],
                       'elements': add(c, {metal: 2}), 'n_sites': 2}
                 ts.update(_thermo(rnd, 'nasa'))
                 ts_species.append(ts)
@@ -287,20 +332,28 @@ def abstract_model(case):
     M['ts_species'] = ts_species
     # ---- lateral interactions
     inter = []
-    for k in range(case.get('n_interactions', rnd.randint(0, 10 if big else 3)) if tags else 0):
+    for k in range(case.get('n_interactions', rnd.randint(0, 10 if big else 3))
+                   if tags and not case.get('empty_lists') else 0):
         t = rnd.choice(tags)
         ads = [s['name'] for s in species if s['name'].endswith('(%s)' % t) and not s['name'].startswith('K(')]
-        n = rnd.randint(1, 3)
+        n = rnd.randint(1, 5 if big else 3)
         inter.append({'name_i': rnd.choice(ads), 'name_j': rnd.choice(ads),
                       'intervals': [0] + sorted(rnd.sample([0.1, 0.25, 0.5, 0.75], n - 1)) if rnd.random() < 0.5
                       else [0.0] + sorted(rnd.sample([0.1, 0.25, 0.5, 0.75], n - 1)),
-                      'slopes': [rnd.choice([-52.6, -17.7, -3.0, 4.25, -20.7]) for _ in range(n)],
+                      'slopes': [rnd.choice([-52.6, -17.7, -3.0, 4.25, -20.7, 0.0]) for _ in range(n)],
                       'name': ('u_i_%04d' % (k + 20)) if rnd.random() < 0.25 else None})
     M['interactions'] = inter
     M['via'] = case.get('via') or rnd.choice(['organize', 'organize', 'direct', 'incremental'])
     if any(b['name'] is None for b in beps) and M['via'] == 'organize':
         M['via'] = 'direct'          # organize_phases compares reactions, which needs named BEPs
     M['ads_act_method'] = case.get('ads_act_method', 'get_H_act')
+    M['classes'] = case.get('classes', 'omkm')
+    if M['classes'] == 'cantera' and M['via'] == 'organize':
+        M['via'] = 'direct'          # organize_phases only builds the omkm classes
+    M['ctor'] = 'from_string' if (case.get('ctor') == 'from_string' and not rich
+                                  and all(b['name'] for b in beps)) else 'init'
+    M['empty_lists'] = bool(case.get('empty_lists'))
+    M['omit'] = case.get('omit', '')
     return M
 
 
@@ -339,9 +392,24 @@ def build(M):
                 descriptor=b['descriptor']) for b in M['beps']]
     reactions = []
     for rx in M['reactions']:
+        rid = int(rx['id']) if (rx['id'] or '').isdigit() else rx['id']       # '0007' is given as 7
+        if M['ctor'] == 'from_string':
+            sd = dict(by_name)
+            sd.update({b.name: b for b in beps})
+            side = lambda terms: ' + '.join('%s%s' % ('' if c == 1 else c, n) for c, n in terms)
+            mid = ''
+            if rx['ts'] is not None:
+                mid = ' = %s' % (M['beps'][rx['ts']['index']]['name'] if rx['ts']['kind'] == 'bep' else rx['ts']['name'])
+            kw = dict(id=rid, is_adsorption=rx['ads'], A=rx['A'], Ea=rx['Ea'], direction=rx['direction'])
+            if rx['beta'] is not None:
+                kw['beta'] = rx['beta']
+            if rx['stick'] is not None:
+                kw['sticking_coeff'] = rx['stick']
+            reactions.append(SurfaceReaction.from_string('%s%s = %s' % (side(rx['lhs']), mid, side(rx['rhs'])), sd, **kw))
+            continue
         kw = dict(reactants=[by_name[n] for _, n in rx['lhs']], reactants_stoich=[float(c) for c, _ in rx['lhs']],
                   products=[by_name[n] for _, n in rx['rhs']], products_stoich=[float(c) for c, _ in rx['rhs']],
-                  id=rx['id'], is_adsorption=rx['ads'], A=rx['A'], Ea=rx['Ea'], beta=rx['beta'],
+                  id=rid, is_adsorption=rx['ads'], A=rx['A'], Ea=rx['Ea'], beta=rx['beta'],
                   sticking_coeff=rx['stick'], direction=rx['direction'])
         if rx['ts'] is not None:
             if rx['ts']['kind'] == 'bep':
@@ -363,20 +431,28 @@ def build(M):
             if p['kind'] == 'iface':
                 d['site_density'] = p['site_density']
                 d['phases'] = list(p['parents'])
+            if p.get('note') is not None:
+                d['note'] = p['note']
             pdata.append(d)
         phases = organize_phases(pdata, species=species, reactions=reactions or None,
                                  interactions=inter or None)
     else:
+        import pmutt.cantera.phase as cph
+        Gas, Solid = (cph.IdealGas, cph.StoichSolid) if M['classes'] == 'cantera' else (IdealGas, StoichSolid)
         phases = []
+        made = {}
         for p in M['phases']:
+            extra = {} if p.get('note') is None else {'note': p['note']}
+            mem = {} if via == 'incremental' else {'species': list(members[p['name']])}
             if p['kind'] == 'gas':
-                ph = IdealGas(name=p['name']) if via == 'incremental' else IdealGas(name=p['name'], species=list(members[p['name']]))
+                ph = Gas(name=p['name'], **mem, **extra)
             elif p['kind'] == 'solid':
-                ph = (StoichSolid(name=p['name'], density=p['density']) if via == 'incremental'
-                      else StoichSolid(name=p['name'], density=p['density'], species=list(members[p['name']])))
+                ph = Solid(name=p['name'], density=p['density'], **mem, **extra)
             else:
-                kw = dict(name=p['name'], site_density=p['site_density'], phases=list(p['parents']))
-                ph = InteractingInterface(**kw) if via == 'incremental' else InteractingInterface(species=list(members[p['name']]), **kw)
+                parents = [made[n] for n in p['parents']] if M['parents_as'] == 'objects' else list(p['parents'])
+                ph = InteractingInterface(name=p['name'], site_density=p['site_density'], phases=parents,
+                                          **mem, **extra)
+            made[p['name']] = ph
             phases.append(ph)
         if via == 'incremental':
             # species added one by one, phase after phase; one of them removed and added again
@@ -397,8 +473,10 @@ def build(M):
                 ph.reactions = rs or None
                 its = [i for i, ii in zip(inter, M['interactions']) if ii['name_i'] in mine]
                 ph.interactions = its or None
-    ukw = {k: M['units'][k] for k in UNIT_KEYS}
-    units = None if M['units_form'] == 'absent' else (Units(**ukw) if M['units_form'] == 'obj' else ukw)
+    import pmutt.cantera.units as cunits
+    ukw = {k: M['units'][k] for k in M['units_given']}
+    units = {'absent': lambda: None, 'obj': lambda: Units(**ukw), 'cobj': lambda: cunits.Units(**ukw),
+             'dict': lambda: ukw, 'pdict': lambda: ukw}[M['units_form']]()
     return {'phases': phases, 'species': species, 'reactions': reactions, 'beps': beps,
             'interactions': inter, 'units': units}
 
@@ -411,7 +489,8 @@ def _factors(units):
     u = units
     return {'fq': c.convert_unit(initial='mol', final=u['quantity']),
             'fa': c.convert_unit(initial='cm2', final='%s2' % u['length']),
-            'fv': c.convert_unit(initial='cm3', final='%s3' % u['length']),
+            # lengths without a cubed unit in the table only occur in models without a bulk phase
+            'fv': c.convert_unit(initial='cm3', final='%s3' % u['length']) if u['length'] not in ('A', 'km') else 1.0,
             'fm': c.convert_unit(initial='g', final=u['mass']),
             'fE': c.convert_unit(initial='kcal/mol', final=u['act_energy']),
             'fe': c.convert_unit(initial='kcal', final=u['energy'])}
@@ -463,6 +542,7 @@ def _exp_phase(M, p, f):
             'sd': to_dec(p.get('site_density', 0)), 'fq': to_dec(f['fq']), 'fa': to_dec(f['fa']),
             'sd_unit': codes('%s/%s^2' % (u['quantity'], u['length'])),
             'density': to_dec(p.get('density', 0)), 'fm': to_dec(f['fm']), 'fv': to_dec(f['fv']),
+            'note': (p.get('note') or '').split(),
             'rx': rx, 'inter': it, 'nbeps': len(bp),
             'bep_names': [M['beps'][k]['name'] or '' for k in bp]}
 
@@ -617,7 +697,7 @@ def _yaml_phase(ent):
             'sd': _num_or_text(ent.get('site-density')), 'density': _num_or_text(None),
             'rx_form': 'kw', 'rx_kw': str(ent.get('reactions', '')), 'rx_entries': [],
             'int_form': 'kw', 'int_kw': str(ent.get('interactions', '')), 'int_entries': [],
-            'beps_form': 'kw', 'beps_kw': str(ent.get('beps', '')), 'beps_names': [],
+            'beps_form': 'kw', 'beps_kw': str(ent.get('beps', '')), 'beps_names': [], 'note': [],
             'extra': sorted(set(map(str, ent)) - {'name', 'elements', 'species', 'thermo', 'kinetics',
                                                   'site-density', 'reactions', 'interactions', 'beps'})}
 
@@ -767,9 +847,10 @@ def _cti_phase(d):
             'rx_form': rf, 'rx_kw': '', 'rx_entries': re_,
             'int_form': itf, 'int_kw': '', 'int_entries': ite,
             'beps_form': 'absent' if kw.get('beps') is None else 'names', 'beps_kw': '',
-            'beps_names': _split(kw.get('beps')),
+            'beps_names': _split(kw.get('beps')), 'note': _split(kw.get('note')),
             'extra': sorted(set(kw) - {'name', 'elements', 'species', 'phases', 'site_density', 'density',
-                                       'reactions', 'interactions', 'beps'}) + (['positional'] if d['args'] else [])}
+                                       'reactions', 'interactions', 'beps', 'note'})
+            + (['positional'] if d['args'] else [])}
 
 
 def _cti_reaction(d):
@@ -849,7 +930,9 @@ def project_cti(text):
 def _events(fmt, M, objs, proj, raised, f):
     u = M['units']
     used_beps = _first_use_order(M)
-    exp = {'phases': [p['name'] for p in M['phases']], 'species': [s['name'] for s in M['species']],
+    exp = {'phases': [] if M['omit'] == 'phases' else [p['name'] for p in M['phases']],
+           'species': [] if M['omit'] == 'species' else [s['name'] for s in M['species']],
+           'may': ['reactions', 'interactions'] if M['empty_lists'] else [],
            'nrx': len(M['reactions']), 'nbeps': len(used_beps), 'ninter': len(M['interactions']),
            'has_rx': bool(M['reactions']), 'has_inter': bool(M['interactions']),
            'units': {k: codes(u[k]) for k in UNIT_KEYS}, 'motz': bool(M['motz'])}
@@ -918,9 +1001,10 @@ def _apply_edits(M, objs):
             ph.clear_species()
             ph.extend_species(keep)
         elif how == 'append':
-            extra = {'name': 'HE' if ed['phase'] == 'gas' else 'CS(%s)' % nm[2], 'family': 'nasa',
-                     'phase': ed['phase'], 'elements': {'He' if ed['phase'] == 'gas' else 'Cs': 1},
-                     'n_sites': None if ed['phase'] == 'gas' else 1}
+            isgas = ed['phase'] == M['pn']['gas']
+            extra = {'name': 'HE' if isgas else 'CS(%s)' % nm[2], 'family': 'nasa',
+                     'phase': ed['phase'], 'elements': {'He' if isgas else 'Cs': 1},
+                     'n_sites': None if isgas else 1}
             extra.update(_thermo(random.Random(7), 'nasa'))
             obj = _mk_species(extra, None)
             ph.append_species(obj)
@@ -934,26 +1018,63 @@ def _apply_edits(M, objs):
     return M2
 
 
-def run_case(case):
+def _write(fmt, kw, to_file):
+    """The text of one file: returned by the writer, or read back from the file it wrote."""
     from pmutt.io.omkm import write_cti, write_thermo_yaml
+    fn = write_thermo_yaml if fmt == 'yaml' else write_cti
+    if not to_file:
+        return fn(**kw)
+    import os
+    import shutil
+    import tempfile
+    d = tempfile.mkdtemp(prefix='c07d_')
+    try:
+        path = os.path.join(d, 'thermo.' + fmt)
+        extra = {'write_xml': False} if fmt == 'cti' else {}
+        ret = fn(filename=path, **extra, **kw)
+        if ret is not None:
+            raise core.MachineryError('%s(filename=...) returned something' % fn.__name__)
+        with open(path) as fh:
+            return fh.read()
+    finally:
+        shutil.rmtree(d, ignore_errors=True)
+
+
+def _order(case, M):
+    fmts = ['cti'] if M['classes'] == 'cantera' else list(case.get('formats', ['yaml', 'cti']))
+    return fmts[::-1] if case.get('both') == 'cti_yaml' else fmts
+
+
+def run_case(case):
     M = abstract_model(case)
     f = _factors(M['units'])
-    out = {'events': {}, 'mism': [], 'build_error': ''}
-    for fmt in case.get('formats', ['yaml', 'cti']):
+    out = {'events': {}, 'mism': [], 'build_error': '', 'order': _order(case, M)}
+    shared = case.get('both') in ('yaml_cti', 'cti_yaml')      # the SAME objects go through both writers
+    objs = None
+    edited = False
+    for fmt in out['order']:
         try:
-            objs = build(M)                                # fresh objects per file (writers assign ids)
+            if objs is None or not shared:
+                objs = build(M)                            # writers assign ids to the objects
         except Exception as ex:                            # the library refused a valid model
             out['build_error'] = '%s: %s' % (type(ex).__name__, ex)
             out['events'][fmt] = [{'ev': 'begin', 'fmt': fmt, 'raised': 'build:' + type(ex).__name__,
                                    'loaded': False, 'sections': [], 'units': {k: [] for k in UNIT_KEYS},
-                                   'motz': 'absent', 'exp': {'phases': [], 'species': [], 'nrx': 0, 'nbeps': 0,
-                                                             'ninter': 0, 'has_rx': False, 'has_inter': False,
-                                                             'units': {k: [] for k in UNIT_KEYS}, 'motz': False}},
+                                   'motz': 'absent', 'msg': out['build_error'][:300],
+                                   'exp': {'phases': [], 'species': [], 'may': [], 'nrx': 0, 'nbeps': 0,
+                                           'ninter': 0, 'has_rx': False, 'has_inter': False,
+                                           'units': {k: [] for k in UNIT_KEYS}, 'motz': False}},
                                   {'ev': 'end'}]
             continue
+        empty = [] if M['empty_lists'] else None
         kw = dict(phases=objs['phases'], species=objs['species'],
-                  reactions=objs['reactions'] or None, lateral_interactions=objs['interactions'] or None,
-                  T=M['T'], use_motz_wise=M['motz'])
+                  reactions=objs['reactions'] or empty, lateral_interactions=objs['interactions'] or empty)
+        if M['omit'] in ('species', 'phases'):
+            kw[M['omit']] = None
+        if M['T_pass']:
+            kw['T'] = M['T']
+        if M['motz_pass']:
+            kw['use_motz_wise'] = M['motz']
         if objs['units'] is not None:
             kw['units'] = objs['units']
         if M['P'] != 1.0:
@@ -962,28 +1083,32 @@ def run_case(case):
             kw['ads_act_method'] = M['ads_act_method']
         raised, text = '', None
         try:
-            text = write_thermo_yaml(**kw) if fmt == 'yaml' else write_cti(**kw)
+            text = _write(fmt, kw, case.get('to_file'))
+        except core.MachineryError:
+            raise
         except Exception as ex:
             raised = type(ex).__name__
             out['msg_' + fmt] = '%s: %s' % (type(ex).__name__, str(ex)[:300])
         proj = {} if text is None else (project_yaml(text) if fmt == 'yaml' else project_cti(text))
-        # BEPs appear in order of first use; pair them that way
-        M2 = dict(M)
-        out['events'][fmt] = _events(fmt, M2, objs, proj, raised, f)
+        out['events'][fmt] = _events(fmt, M, objs, proj, raised, f)
         if proj.get('msg'):
             out['msg_' + fmt] = proj['msg']
         if raised or proj.get('msg'):
             out['events'][fmt][0]['msg'] = out.get('msg_' + fmt, '')
-        if M['edits'] and text is not None:
+        if M['edits'] and text is not None and not edited:
             # write - edit - write: the second document is judged like the first
             raised2, text2 = '', None
+            M2 = M
             try:
                 M2 = _apply_edits(M, objs)
                 kw.update(phases=objs['phases'], species=objs['species'])
-                text2 = write_thermo_yaml(**kw) if fmt == 'yaml' else write_cti(**kw)
+                if M['omit'] in ('species', 'phases'):
+                    kw[M['omit']] = None
+                text2 = _write(fmt, kw, case.get('to_file'))
+            except core.MachineryError:
+                raise
             except Exception as ex:
                 raised2 = type(ex).__name__
-                M2 = M
                 out['msg2_' + fmt] = '%s: %s' % (type(ex).__name__, str(ex)[:300])
             proj2 = {} if text2 is None else (project_yaml(text2) if fmt == 'yaml' else project_cti(text2))
             ev2 = _events(fmt, M2, objs, proj2, raised2, f)
@@ -991,13 +1116,15 @@ def run_case(case):
             if raised2 or proj2.get('msg'):
                 ev2[0]['msg'] = out.get('msg2_' + fmt, proj2.get('msg', ''))
             out['events'][fmt] = out['events'][fmt] + ev2
+            if shared:
+                M, edited = M2, True                        # the other writer sees the edited objects
     return out
 
 
 def execute(case):
     out = run_case(case)
     events = []
-    for fmt in case.get('formats', ['yaml', 'cti']):
+    for fmt in out['order']:
         events.extend(out['events'][fmt])
     return case, events, out['mism']
 
@@ -1058,6 +1185,8 @@ def event_tags(case, events, idxs, clause):
             t['ads_gas_not_first'] = fx['ads_gas_not_first']
         elif b['raised'] == 'TypeError':
             t['unnamed_bep_used'] = fx['unnamed_bep_used']
+    if clause in ('IdAssigned', 'UserIdKept', 'UniqueIds', 'BepMembers', 'RangeDenotesMembers'):
+        t['ids'] = fx['ids']
     if ev['ev'] == 'species' and ev['exp'].get('found'):
         t['family'] = ev['exp']['model']
     if ev['ev'] == 'interaction' and clause == 'NumberMatches':
@@ -1110,34 +1239,148 @@ def models(ctx):
 
 
 def generate(ctx, rnd):
+    """Recipes.  Every knob is scheduled by the model number so that EVERY quick run contains every
+    class of input named by the property's quantifier and the writers' docstrings (counted by
+    `coverage_counters`; a class that did not occur is a machinery failure)."""
     cases = []
     n = ctx.pick(90, 900)
+    forms = ['obj', 'cobj', 'dict', 'pdict', 'absent']
     for k in range(n):
         c = {'part': 'doc', 'cid': 'd%d' % k, 'seed': rnd.randrange(1 << 30),
-             'size': 'big' if k % 5 == 0 else 'small'}
+             'size': 'big' if k % 5 == 0 else 'small', 'uk': k + ctx.seed, 'units_form': forms[k % 5]}
         if k % 5 in (1, 2):
             c['families'] = 'nasa'
         if k % 3 != 0:
             c['gas_first'] = True
         if k % 13 == 6:
             c['n_iface'] = 0
-        if k % 3 == 2:
-            c['rewrite'] = True
-        if k % 3 == 1:
-            c['names'] = 'rich'
-            c['size'] = 'big'
-        if k % 4 == 1:
-            c['beps'] = ['unnamed', 'mixed', 'auto_ns', 'named', 'unnamed'][(k // 4) % 5]
-            c['size'] = 'big'
-        if not ctx.quick and k % 10 == 9:
-            c['size'] = 'huge'
+        if k % 13 == 9:
+            c['n_iface'] = 3
+        if k % 26 == 19:
+            c.update(tiny=True, n_iface=0, bulk=False)
+        if (not ctx.quick and k % 10 == 9) or (ctx.quick and k == 44):
+            c.update(size='huge', n_reactions=40, n_interactions=10, n_iface=2)
         if k % 7 == 3:
             c['ids'] = 'collide'
+        if k % 7 == 5:
+            c['ids'] = 'int'
         if k % 6 == 1:
             c['P'] = rnd.choice([0.5, 2.0, 10.0])
         if k % 9 == 4:
             c['ads_act_method'] = 'get_G_act'
         if k % 11 == 5:
             c['bep_names'] = 'none'
+        if k % 3 == 2:
+            c['rewrite'] = True
+        if k % 3 == 1:
+            c['names'] = 'rich'
+            c['size'] = 'big' if c['size'] != 'huge' else 'huge'
+        if k % 4 == 1:
+            c['beps'] = ['unnamed', 'mixed', 'auto_ns', 'named', 'unnamed'][(k // 4) % 5]
+            c['size'] = 'big' if c['size'] != 'huge' else 'huge'
+        if k % 8 == 2:
+            c['T'] = 'default'
+        if k % 8 == 5:
+            c['T'] = 'int'
+        if k % 7 == 1:
+            c['motz'] = 'default'
+        if k % 4 == 2:
+            c['phase_names'] = 'odd'
+        if k % 5 == 3:
+            c['notes'] = True
+        if k % 4 == 3:
+            c['parents'] = 'objects'
+        if k % 17 == 4:
+            c.update(bulk=True, empty_bulk=True)
+        if k % 5 == 4:
+            c['ctor'] = 'from_string'
+        if k % 6 == 2:
+            c['both'] = 'yaml_cti'
+        if k % 6 == 5:
+            c['both'] = 'cti_yaml'
+        if k % 10 == 3:
+            c['to_file'] = True
+        if k % 9 == 7:
+            c['classes'] = 'cantera'
+        if k % 15 == 8:
+            c['empty_lists'] = True
+        if k % 19 == 6:
+            c['omit'] = 'species'
+        if k % 19 == 12:
+            c['omit'] = 'phases'
         cases.append(c)
     return cases
+
+
+def coverage_counters(cases):
+    """How often each class of input occurred in this run; `missing` lists the classes that did not."""
+    cnt = {}
+
+    def hit(key, cond=True):
+        cnt[key] = cnt.get(key, 0) + (1 if cond else 0)
+    seen_units = {k: set() for k in UNIT_VALUES}
+    for c in cases:
+        M = abstract_model(c)
+        used = {rx['ts']['index'] for rx in M['reactions'] if (rx['ts'] or {}).get('kind') == 'bep'}
+        unn = sum(1 for k in used if M['beps'][k]['name'] is None)
+        if M['units_form'] != 'absent':
+            for k in M['units_given']:
+                seen_units[k].add(M['units'][k])
+        for form in ('obj', 'cobj', 'dict', 'pdict', 'absent'):
+            hit('units_form_' + form, M['units_form'] == form)
+        hit('models_with_2plus_unnamed_beps', unn >= 2)
+        hit('models_with_2plus_beps', len(used) >= 2)
+        hit('T_default', not M['T_pass'])
+        hit('T_int', isinstance(M['T'], int))
+        hit('P_not_default', M['P'] != 1.0)
+        hit('motz_default', not M['motz_pass'])
+        hit('motz_on', M['motz_pass'] and M['motz'])
+        hit('motz_off', M['motz_pass'] and not M['motz'])
+        hit('ads_act_method_G', M['ads_act_method'] == 'get_G_act')
+        hit('phase_names_with_hyphen_underscore_parenthesis', M['pn']['gas'] != 'gas')
+        hit('phase_notes', any(p.get('note') for p in M['phases']))
+        hit('parents_as_objects', M['parents_as'] == 'objects' and M['via'] != 'organize'
+            and any(p['kind'] == 'iface' for p in M['phases']))
+        for n in (1, 2, 3, 4):
+            hit('phases_%d' % n, len(M['phases']) == n)
+        hit('interfaces_3', sum(1 for p in M['phases'] if p['kind'] == 'iface') == 3)
+        hit('phase_without_species', any(not [s for s in M['species'] if s['phase'] == p['name']] for p in M['phases']))
+        hit('phase_with_one_species', any(len([s for s in M['species'] if s['phase'] == p['name']]) == 1 for p in M['phases']))
+        hit('cantera_phase_classes', M['classes'] == 'cantera')
+        for via in ('organize', 'direct', 'incremental'):
+            hit('via_' + via, M['via'] == via)
+        hit('same_objects_yaml_then_cti', c.get('both') == 'yaml_cti' and M['classes'] != 'cantera')
+        hit('same_objects_cti_then_yaml', c.get('both') == 'cti_yaml' and M['classes'] != 'cantera')
+        hit('written_to_file', bool(c.get('to_file')))
+        hit('write_edit_write', bool(M['edits']))
+        hit('reactions_from_string', M['ctor'] == 'from_string' and bool(M['reactions']))
+        hit('integer_ids', any((rx['id'] or '').isdigit() for rx in M['reactions']))
+        hit('user_ids', any(rx['id'] for rx in M['reactions']))
+        hit('auto_and_user_ids_mixed', any(rx['id'] for rx in M['reactions']) and any(not rx['id'] for rx in M['reactions']))
+        hit('empty_lists_passed', M['empty_lists'])
+        hit('species_omitted', M['omit'] == 'species')
+        hit('phases_omitted', M['omit'] == 'phases')
+        hit('species_exactly_2', len(M['species']) == 2)
+        hit('species_30_to_40', 30 <= len(M['species']) <= 40)
+        hit('reactions_0', not M['reactions'])
+        hit('reactions_30_to_40', 30 <= len(M['reactions']) <= 40)
+        hit('interactions_0', not M['interactions'])
+        hit('interactions_10', len(M['interactions']) == 10)
+        hit('interaction_with_4plus_intervals', any(len(i['intervals']) >= 4 for i in M['interactions']))
+        hit('interaction_with_zero_slope', any(0.0 in i['slopes'] for i in M['interactions']))
+        hit('interaction_user_id', any(i['name'] for i in M['interactions']))
+        for fam in ('nasa', 'nasa9', 'shomate'):
+            hit('family_' + fam, any(s['family'] == fam for s in M['species']))
+        for kind in ('ads', 'diss', 'assoc', 'er'):
+            hit('reaction_' + kind, any(rx['kind'] == kind for rx in M['reactions']))
+        hit('reaction_with_TS_species', any((rx['ts'] or {}).get('kind') == 'species' for rx in M['reactions']))
+        hit('reaction_with_BEP', bool(used))
+        hit('reaction_A_given', any(rx['A'] is not None for rx in M['reactions']))
+        hit('reaction_Ea_given', any(rx['Ea'] is not None for rx in M['reactions']))
+        hit('reaction_Ea_zero', any(rx['Ea'] == 0.0 for rx in M['reactions']))
+        hit('rich_species_names', c.get('names') == 'rich')
+    for k, vals in UNIT_VALUES.items():
+        cnt['unit_values_%s_seen' % k] = len(seen_units[k])
+        cnt['unit_values_%s_all' % k] = int(seen_units[k] >= set(vals))
+    missing = sorted(k for k, v in cnt.items() if not v)
+    return cnt, missing
